@@ -37,8 +37,11 @@
 static inline void* life_gnew(std::size_t n) { if (life::rt.quiet == 0) ++life::rt.foreign; void* p = malloc(n ? n : 1); return p; }
 void* operator new(std::size_t n) { void* p = life_gnew(n); if (!p) throw std::bad_alloc(); return p; }
 void* operator new[](std::size_t n) { void* p = life_gnew(n); if (!p) throw std::bad_alloc(); return p; }
-void* operator new(std::size_t n, const std::nothrow_t&) noexcept { return life_gnew(n); }
-void* operator new[](std::size_t n, const std::nothrow_t&) noexcept { return life_gnew(n); }
+// the nothrow forms are what libstdc++'s std::get_temporary_buffer (scratch of std::inplace_merge / std::stable_sort) uses:
+// counted separately (field gtmp), see the exclusions documented in spec/TraceLifecycle.tla
+static inline void* life_gtmp(std::size_t n) { if (life::rt.quiet == 0) ++life::rt.foreign_tmp; return malloc(n ? n : 1); }
+void* operator new(std::size_t n, const std::nothrow_t&) noexcept { return life_gtmp(n); }
+void* operator new[](std::size_t n, const std::nothrow_t&) noexcept { return life_gtmp(n); }
 static inline void* life_gnew_al(std::size_t n, std::size_t al) { if (life::rt.quiet == 0) ++life::rt.foreign; void* p = nullptr; if (posix_memalign(&p, al < sizeof(void*) ? sizeof(void*) : al, n ? n : 1)) p = nullptr; return p; }
 void* operator new(std::size_t n, std::align_val_t al) { void* p = life_gnew_al(n, (std::size_t)al); if (!p) throw std::bad_alloc(); return p; }
 void* operator new[](std::size_t n, std::align_val_t al) { void* p = life_gnew_al(n, (std::size_t)al); if (!p) throw std::bad_alloc(); return p; }
@@ -171,7 +174,7 @@ template<class Ad> struct Runner {
 
   template<class F> bool call(F f, std::string& what) {
     fix_randomness();
-    rt.foreign = 0;
+    rt.foreign = 0; rt.foreign_tmp = 0;
     ++rt.step_no;
     rt.quiet = 0;
     bool ok = true;
@@ -186,7 +189,7 @@ template<class Ad> struct Runner {
   bool step(const StepIn& s, bool teardown) {
     const int i = s.i, j = s.j, c = s.c;
     std::string what;
-    long foreign = 0;
+    long foreign = 0, gtmp = 0;
     bool ok = true;
     const std::string& k = s.k;
     if (k == "Construct") { int a = next_alloc++; ok = call([&] { Ad::construct(buf[i], a); }, what); st[i] = 1; }
@@ -204,7 +207,7 @@ template<class Ad> struct Runner {
     else if (k == "Reset") { int a = next_alloc++; ok = call([&] { Ad::reset(at(i), a); }, what); }
     else if (k == "Destroy") { ok = call([&] { at(i).~S(); }, what); st[i] = 0; }
     else { fprintf(stderr, "life_rec: unknown step kind %s\n", k.c_str()); exit(3); }
-    foreign = rt.foreign;
+    foreign = rt.foreign; gtmp = rt.foreign_tmp;
     if (!ok) {
       vt::Ev("Exception").str("fam", Ad::name()).str("k", k).i("i", i).i("j", j).str("what", what).raw("env", env_json()).emit();
       return false;
@@ -221,14 +224,14 @@ template<class Ad> struct Runner {
           vt::Ev("Exception").str("fam", Ad::name()).str("k", "Digest").i("i", sl).i("j", 0).str("what", what).raw("env", env_json()).emit();
           return false;
         }
-        gobs += rt.foreign;
+        gobs += rt.foreign; gtmp += rt.foreign_tmp;
         char b[40]; snprintf(b, sizeof b, "\"B:%016llx\"", (unsigned long long)fnv(img));
         D += b;
       } else D += "0";
     }
     D += "]";
     vt::Ev e("Step");
-    e.str("fam", Ad::name()).str("k", k).i("i", i).i("j", j).i("c", c).str("op", s.op).raw("D", D).raw("env", env_json()).i("gnew", foreign).i("gobs", gobs);
+    e.str("fam", Ad::name()).str("k", k).i("i", i).i("j", j).i("c", c).str("op", s.op).raw("D", D).raw("env", env_json()).i("gnew", foreign).i("gobs", gobs).i("gtmp", gtmp);
     if (teardown) e.b("td", true);
     e.emit();
     return true;
@@ -250,8 +253,11 @@ template<class Ad> struct Runner {
   }
 };
 
+template<class Ad> static auto warm_up(int) -> decltype(Ad::warm_up()) { Ad::warm_up(); }
+template<class Ad> static void warm_up(long) {}
 template<class Ad> static void run_family(const std::vector<Beh>& behs, const std::vector<long>& idx, long from) {
   static Runner<Ad> r;
+  warm_up<Ad>(0);     // process-wide, allocator-independent initialisation of a family (documented per adapter), outside any call
   for (size_t n = from; n < behs.size(); n++) {
     *g_progress = (long)n;
     r.run(behs[n], idx[n]);
